@@ -37,8 +37,8 @@ RULE = ('BFS over all event histories (alphabet B1 B2 F A S I R X XR K D, at mos
         'context counter relative to c, multiset of held groups (size, stage, counters relative to c, how/when they were computed)). '
         'evaluation = one injection attempt judged by the invariant; distinct_nontrivial = distinct (configuration, canonical '
         'pre-state, event) injection attempts that are not the plain "fresh context, empty mempool, one held group" case')
-BOUND = {'quick': 'depth 6, at most 2 held groups, 18 configurations (tz1,tz2,tz3 x c0 in {0,126,2^32-2} x sandboxed in {no,yes})',
-         'thorough': 'depth 8 with at most 2 held groups and depth 7 with at most 3 held groups, same 18 configurations'}
+BOUND = {'quick': 'depth 7 with at most 2 held groups, 18 configurations (tz1,tz2,tz3 x c0 in {0,126,2^32-2} x sandboxed in {no,yes})',
+         'thorough': 'depth 9 with at most 2 held groups and depth 8 with at most 3 held groups, same 18 configurations'}
 ASSUMPTIONS = [
     'the node reports pending operations under `applied` (where ExecutionContext.get_counter_offset looks); newer Octez versions '
     'report `validated` instead - not judged here',
@@ -301,8 +301,8 @@ CONFIGS = [{'curve': cv, 'c0': c0, 'sandboxed': sb} for cv in CURVES for c0 in (
 
 def shards(tier, seed):
     if tier == 'quick':
-        return [dict(cfg, maxg=2, depth=6) for cfg in CONFIGS]
-    return [dict(cfg, maxg=3, depth=7) for cfg in CONFIGS] + [dict(cfg, maxg=2, depth=8) for cfg in CONFIGS]
+        return [dict(cfg, maxg=2, depth=7) for cfg in CONFIGS]
+    return [dict(cfg, maxg=3, depth=8) for cfg in CONFIGS] + [dict(cfg, maxg=2, depth=9) for cfg in CONFIGS]
 
 
 def cfg_key(cfg):
